@@ -2749,7 +2749,13 @@ def _clip_power_of_two(x_abs,
       x_input = x_abs
 
     if log2_rounding == "floor":
-      x_log2 = _floor_through(tf.keras.backend.log(x_input) / log2)
+      # floor(log(x)/log(2)) is off by one for some exact powers of two
+      # because of the float error of log; round first, then step down when
+      # the rounded power exceeds x.
+      x_log2 = tf.keras.backend.log(x_input) / log2
+      x_rnd = tf.round(x_log2)
+      x_floor = tf.where(pow(2.0, x_rnd) > x_input, x_rnd - 1.0, x_rnd)
+      x_log2 = x_log2 + tf.stop_gradient(-x_log2 + x_floor)
     elif use_stochastic_rounding:
       x_log2 = tf_utils.smart_cond(
           K.learning_phase(),
